@@ -137,10 +137,20 @@ def history_to_item(hid: str, hist: list[dict], nops: list, concurrent: bool) ->
     return {"id": hid, "programs": programs, "runs": runs}
 
 
-def make_items(chk: Check, nops: list, npool: int, thorough: bool, hists: list, npoints: list,
-               mini=None) -> list[dict]:
-    rng = random.Random(chk.seed + 5)
+def churn_items(cis, n: int) -> list[dict]:
+    """(g) classes come and go: throw-away look-alike classes fail to get codecs and are collected, then
+    the class is defined afresh and used (see sched.run_program, op "churn")."""
     items = []
+    for ci in cis:
+        items.append({"id": f"churn{ci}", "programs": [[("churn", ci, 0, n)]]})
+        items.append({"id": f"churnw{ci}", "programs": [[("w", ci, 0, 0), ("r", ci, 1, 0), ("churn", ci, 1, n)]]})
+    return items
+
+
+def make_items(chk: Check, nops: list, npool: int, thorough: bool, hists: list, npoints: list,
+               mini=None, synth_idx=()) -> list[dict]:
+    rng = random.Random(chk.seed + 5)
+    items = churn_items([ci for ci in synth_idx if mini is None or ci in mini], 60 if thorough else 16 if mini is None else 8)
     if mini is not None:
         sel = sorted(ci for ci in mini if ci < npool)
         for ci in sel:
@@ -341,7 +351,8 @@ def history_core(chk: Check, thorough: bool, hists: list, mini) -> None:
     npoints = sched.count_points(mpool)
     if isinstance(npoints, dict):
         raise Machinery(f"dry run (switch points) failed: {npoints}")
-    items = make_items(chk, nops, len(pool), thorough, hists, npoints, mini)
+    synth_idx = [ci for ci, ent in enumerate(pool) if ent["mod"] == "<synth>"]
+    items = make_items(chk, nops, len(pool), thorough, hists, npoints, mini, synth_idx)
     random.Random(chk.seed).shuffle(items)
     K = 16
     batches = [(spec, items[i::K]) for i in range(K)]
